@@ -5,6 +5,7 @@ import (
 	"fmt"
 	"io"
 	"net/http"
+	"reflect"
 	"strings"
 	"time"
 
@@ -29,16 +30,17 @@ type c15BadStringer struct{}
 func (c15BadStringer) String() string { panic("String() of the panic value panics") }
 
 type c15Config struct {
-	N       int    `json:"stack_size"`
-	R       int    `json:"recovery_position"`
-	P       int    `json:"panic_position"`
-	Phase   string `json:"phase"`        // before-write | after-status | after-body | after-next | unresolved-dependency
-	Between int    `json:"between_mask"` // bit i set: the i-th handler between Recovery and the panic calls Next() itself
-	Value   string `json:"panic_value"`  // string | error | runtime | struct | abort
-	Style   string `json:"registration"` // use | route | group
-	Env     string `json:"env"`
-	BuiltIn string `json:"env_while_building,omitempty"`                       // when set, the stack is built in this environment and Env is set afterwards
-	Reconf  bool   `json:"middleware_replaced_after_first_requests,omitempty"` // the application first runs with as many do-nothing middleware, serves both routes, and only then gets the real stack through Handlers()
+	N        int    `json:"stack_size"`
+	R        int    `json:"recovery_position"`
+	P        int    `json:"panic_position"`
+	Phase    string `json:"phase"`        // before-write | after-status | after-body | after-next | unresolved-dependency
+	Between  int    `json:"between_mask"` // bit i set: the i-th handler between Recovery and the panic calls Next() itself
+	Value    string `json:"panic_value"`  // string | error | runtime | struct | abort
+	Style    string `json:"registration"` // use | route | group
+	Env      string `json:"env"`
+	BuiltIn  string `json:"env_while_building,omitempty"`                       // when set, the stack is built in this environment and Env is set afterwards
+	CustomRH bool   `json:"custom_return_handler_mapped,omitempty"`             // the application maps a ReturnHandler of its own (it renders whatever handlers return as a 200 envelope); Recovery's 500 is not a handler's return value
+	Reconf   bool   `json:"middleware_replaced_after_first_requests,omitempty"` // the application first runs with as many do-nothing middleware, serves both routes, and only then gets the real stack through Handlers()
 }
 
 func (c c15Config) marker() string {
@@ -82,6 +84,12 @@ type c15World struct {
 
 func c15Build(c c15Config) *c15World {
 	w := &c15World{f: flamego.NewWithLogger(io.Discard)}
+	if c.CustomRH {
+		w.f.Map(flamego.ReturnHandler(func(ctx flamego.Context, vals []reflect.Value) {
+			ctx.ResponseWriter().WriteHeader(200)
+			_, _ = ctx.ResponseWriter().Write([]byte(fmt.Sprintf(`{"data":%v}`, vals[0].Interface())))
+		}))
+	}
 	mk := func(i int) flamego.Handler {
 		switch {
 		case i == c.R:
@@ -355,6 +363,9 @@ func c15Configs(thorough bool) []c15Config {
 								if st == "use" && (v == "string" || v == "struct") {
 									out = append(out, c15Config{N: n, R: r, P: p, Phase: ph, Between: bm, Value: v, Style: st, Reconf: true})
 								}
+								if (st == "use" || st == "route") && (v == "string" || v == "error") && (thorough || n <= 3) {
+									out = append(out, c15Config{N: n, R: r, P: p, Phase: ph, Between: bm, Value: v, Style: st, CustomRH: true})
+								}
 							}
 						}
 					}
@@ -394,7 +405,7 @@ func c15Run(r *core.Run) {
 	if !r.Thorough() {
 		seqs = []string{"P", "PN", "PPN", "NPN", "PNP", "PQ", "QPQ", "PPQ"}
 	}
-	r.Rule = "engine E: stacks of 2..4 (thorough 5) handlers with Recovery at every position, logging middleware before it, pass-through handlers (with and without their own Next()) between it and the panicking handler at every later position; panic phase {before any write, after a status, after body bytes, after Next() returned, unresolved dependency} x value {string, error, runtime error, struct, http.ErrAbortHandler, typed-nil error pointer, value whose String() panics} x registration style {application middleware, route handlers, middleware+group, middleware or route handlers with the panicking handler as the final Action} x environment {development, production, test} x request sequences over {panicking, normal}; oracle: nothing escapes, status 500 iff nothing had been sent, detail in the body iff development, outer middleware completes, normal requests equal a fresh instance; non-trivial = sequence with >=2 requests or a panic after something was written"
+	r.Rule = "engine E: stacks of 2..4 (thorough 5) handlers with Recovery at every position, logging middleware before it, pass-through handlers (with and without their own Next()) between it and the panicking handler at every later position; panic phase {before any write, after a status, after body bytes, after Next() returned, unresolved dependency} x value {string, error, runtime error, struct, http.ErrAbortHandler, typed-nil error pointer, value whose String() panics} x registration style {application middleware, route handlers, middleware+group, middleware or route handlers with the panicking handler as the final Action} x {default, application-mapped ReturnHandler} x environment {development, production, test} x request sequences over {panicking, normal}; oracle: nothing escapes, status 500 iff nothing had been sent, detail in the body iff development, outer middleware completes, normal requests equal a fresh instance; non-trivial = sequence with >=2 requests or a panic after something was written"
 	r.Bounds["configs"] = len(cfgs)
 	r.Bounds["sequences"] = seqs
 	r.Assumptions = []string{"panic(nil) is outside the statement ('any non-nil value')", "environments are process-global: the three environments run as sequential phases"}
